@@ -23,7 +23,7 @@ const SPEC: Spec = Spec {
         "weak-memory mode under-approximates C11 and only sees atomic locations; with a stale read in the run only the time-free part of the oracle applies because the harness log order is then no happens-before order for the code under test",
         "timed waits of real back-ends: a wake-up by time-out instead of by trigger is counted, never reported as a violation (> 1 % of the cases makes the run inconclusive)",
     ],
-    watchdog_quick_s: 900,
+    watchdog_quick_s: 1800,
     watchdog_thorough_s: 10800,
 };
 
